@@ -593,6 +593,31 @@ func CheckC19(e *Env) int {
 		b.P.Feat = map[string]string{"show": "variadic-input", "variant": fmt.Sprint(v)}
 		showProgs = append(showProgs, b.P)
 	}
+	// every layer calls its set ProviderSet: an included set of the same variable name in
+	// another package (directly and through a further set) is an included set like any other
+	for v := 0; v < 3; v++ {
+		b := NewPB(fmt.Sprintf("shsn%d", v), "app", "data", "biz")
+		store, extra, uc, svc := b.Carrier(1, "Store"), b.Carrier(1, "Extra"), b.Carrier(2, "Usecase"), b.Carrier(0, "Service")
+		ns := b.Func(1, "NewStore", PtrTo(store), false, false)
+		ne := b.Func(1, "NewExtra", extra, false, false)
+		dataSet := b.Set(1, "ProviderSet", ItemRef(ns.ID))
+		extraSet := b.Set(1, "ExtraSet", ItemRef(ne.ID))
+		nu := b.Func(2, "NewUsecase", PtrTo(uc), false, false, PtrTo(store))
+		bizMembers := []Ref{ItemRef(nu.ID)}
+		if v >= 1 {
+			bizMembers = append(bizMembers, SetRef(dataSet.ID))
+		}
+		bizSet := b.Set(2, "ProviderSet", bizMembers...)
+		nsvc := b.Func(0, "NewService", svc, false, false, PtrTo(uc), extra)
+		members := []Ref{ItemRef(nsvc.ID), SetRef(bizSet.ID), SetRef(extraSet.ID)}
+		if v != 1 {
+			members = append(members, SetRef(dataSet.ID))
+		}
+		outer := b.Set(0, "ProviderSet", members...)
+		b.Inj("Init", svc, false, false, nil, SetRef(outer.ID))
+		b.P.Feat = map[string]string{"show": "same-named-sets-in-every-layer", "variant": fmt.Sprint(v)}
+		showProgs = append(showProgs, b.P)
+	}
 	var batches [][]*Program
 	for i := 0; i < len(showProgs); i += 24 {
 		j := i + 24
